@@ -52,7 +52,7 @@ def run_pdf(shard, ctx):
             tag = ("c13", kind, D, R)
             Sp = objs.spd_batch(D, R, vi, seed, tag + ("p",), diag=diag)
             mp_ = objs.vec_batch(D, R, vi, seed, tag + ("p",))
-            for prep, mkp, mu_e, Sig_e in objs.pdf_variants(kind, Sp, mp_, which=("fresh", "sliced_neg", "updated", "Sigma+Lambda+lndet", "conditioned", "prod_linear", "prod_constant") if vi == 0 else ("fresh",)):
+            for prep, mkp, mu_e, Sig_e in objs.pdf_variants(kind, Sp, mp_, which=("fresh", "sliced_neg", "updated", "Sigma+Lambda+lndet", "replaced_mu", "conditioned", "prod_linear", "prod_constant") if vi == 0 else ("fresh",)):
               if ctx.case(dict(what="entropy", R=R, vi=vi, prep=prep)):
                 with ctx.guard("entropy.call", dict(prep=prep)):
                     p = mkp()
